@@ -700,7 +700,7 @@ func hook(c rescorr.Case, ms *yang.Modules, errs []error, out *rescorr.GoOut) {
 		out.Extra["a"] = append(out.Extra["a"], fmt.Sprintf("%s:%d:%d", ans, dn, de))
 		out.Extra["want"] = append(out.Extra["want"], want)
 		out.Extra["kind"] = append(out.Extra["kind"], q.kind+" "+limit)
-		if bk := strings.TrimPrefix(q.kind, "refused:"); bk != "create" && bk != "unknown-prefix" && bk != "name-as-prefix" && (dn != 0 || de != 0) {
+		if bk, _ := baseKind(q.kind); bk != "create" && bk != "unknown-prefix" && bk != "name-as-prefix" && (dn != 0 || de != 0) {
 			add(fmt.Sprintf("Find(%q) from %s changed the trees: %+d nodes, %+d errors", q.path, readableLoc(w.trees[st.tree].ref+"/"+encSteps(st.steps)+"/"+lib.HexS(st.e.Path())), dn, de))
 		}
 	}
@@ -762,6 +762,135 @@ func hook(c rescorr.Case, ms *yang.Modules, errs []error, out *rescorr.GoOut) {
 		}
 		out.Extra["refused"] = append(out.Extra["refused"], rt.what)
 		reask(rt.what)
+	}
+	// ---- phase 5: the processed trees are kept while the Modules value moves on (see kept.go)
+	if c.Extra["kept"] == "1" && len(out.Extra["refused_accepted"]) == 0 {
+		treeByRef := map[string]int{}
+		for i, t := range w.trees {
+			treeByRef[t.ref] = i
+		}
+		// classify the lookups asked so far
+		type cls struct {
+			cross  bool
+			target *yang.Module // the module the first step of an absolute path denotes (nil: none / relative)
+		}
+		classify := func(q query) (cl cls, ok bool) {
+			if !strings.HasPrefix(q.path, "/") {
+				return cls{}, true
+			}
+			st := w.nodes[q.start]
+			home := w.trees[st.tree].mod
+			if p := firstPrefix(q.path); p != "" {
+				ti, known := treeByRef[q.ctx]
+				if !known {
+					return cls{}, false
+				}
+				cl.target = resolvePrefix(ms, w.trees[ti].mod, p)
+				if cl.target == nil { // a prefix nobody binds: nothing is found, wherever one looks
+					return cl, true
+				}
+			} else {
+				cl.target = homeTree(st.tree)
+			}
+			cl.cross = cl.target != home
+			return cl, true
+		}
+		var ownAbs, rel, bad, cross []int
+		for i := 0; i < nBefore; i++ {
+			q := qs[i]
+			cl, ok := classify(q)
+			if !ok {
+				continue
+			}
+			positive := strings.HasPrefix(q.expect, "t") || strings.HasPrefix(q.expect, "new") || q.expect == "same"
+			switch {
+			case cl.cross && strings.HasPrefix(q.expect, "t"):
+				cross = append(cross, i)
+			case cl.cross: // a corrupted path into another module's current tree: not the kept trees' business
+			case !strings.HasPrefix(q.path, "/") && positive:
+				rel = append(rel, i)
+			case positive:
+				ownAbs = append(ownAbs, i)
+			default:
+				bad = append(bad, i)
+			}
+		}
+		sample := func(from []int, k int) []int {
+			if len(from) <= k {
+				return from
+			}
+			var s []int
+			for _, j := range r.Perm(len(from))[:k] {
+				s = append(s, from[j])
+			}
+			sort.Ints(s)
+			return s
+		}
+		order := r.Perm(len(perturbations))
+		for _, pi := range order {
+			pert := perturbations[pi]
+			if why := perturb(ms, pert, r.Intn(1<<20)); why != "" {
+				// not C17's business (a run after a run: C18); the trees at hand are no longer described by the set
+				out.Extra["kept_stopped"] = append(out.Extra["kept_stopped"], why)
+				break
+			}
+			out.Extra["kept"] = append(out.Extra["kept"], pert)
+			// (a) answered by the kept tree itself: same expectation as before, the model is asked too
+			for _, part := range [][]int{sample(ownAbs, 36), sample(rel, 14), sample(bad, 14)} {
+				for _, i := range part {
+					q := qs[i]
+					if strings.HasPrefix(q.expect, "new") || q.expect == "same" {
+						j, ok := w.idx[resOf[i]]
+						if resOf[i] == nil || !ok {
+							continue
+						}
+						q.expect = "t" + strconv.Itoa(j)
+					}
+					q.kind = "kept:" + q.kind + "@" + pert
+					exec(q)
+				}
+			}
+			// (b) crossing into another module: the current tree of that module answers
+			for _, i := range sample(cross, 16) {
+				q := qs[i]
+				j, _ := strconv.Atoi(q.expect[1:])
+				tn := w.nodes[j]
+				tt := w.trees[tn.tree]
+				cl, _ := classify(q)
+				if cl.target != tt.mod || limitOf(tn) != "" || limitOf(w.nodes[q.start]) != "" {
+					continue
+				}
+				cur := yang.ToEntry(tt.mod) // what the Modules value holds for that module now
+				wantE, absentIO := walkSteps(cur, tn.steps)
+				if absentIO {
+					continue // the lookup would create an input/output in the current tree
+				}
+				st := w.nodes[q.start]
+				nb, eb := counts(w)
+				res := st.e.Find(q.path)
+				na, ea := counts(w)
+				want, alt := "none", locOf("kept|"+tt.ref, tn.steps, tn.e)
+				if wantE != nil {
+					want = locOf("current|"+tt.ref, tn.steps, wantE)
+				}
+				ans := "none"
+				switch {
+				case res == nil:
+				case res == wantE:
+					ans = want
+				case res == tn.e:
+					ans = alt
+				default:
+					ans = "foreign/" + lib.HexS(res.Path())
+				}
+				out.Extra["kq"] = append(out.Extra["kq"], w.trees[st.tree].ref+" "+encSteps(st.steps)+" "+q.ctx+" "+lib.HexS(q.path))
+				out.Extra["ka"] = append(out.Extra["ka"], fmt.Sprintf("%s:%d:%d", ans, na-nb, ea-eb))
+				out.Extra["kwant"] = append(out.Extra["kwant"], want)
+				out.Extra["kalt"] = append(out.Extra["kalt"], alt)
+				out.Extra["kkind"] = append(out.Extra["kkind"], q.kind+"@"+pert)
+				n0, e0 = na, ea
+			}
+		}
 	}
 	late := 0
 	for _, n := range w.nodes {
@@ -912,6 +1041,12 @@ func unhex(s string) string {
 func readableLoc(a string) string {
 	f := strings.Split(a, ":")
 	parts := strings.Split(f[0], "/")
+	if len(parts) == 2 && parts[0] == "foreign" {
+		return "an entry that is no node of the walked (kept) trees, Path()=" + unhex(parts[1]) + " " + strings.Join(f[1:], ":")
+	}
+	if i := strings.IndexByte(parts[0], '|'); i > 0 && len(parts) >= 3 { // "current|<ref>", "kept|<ref>"
+		return "[" + parts[0][:i] + " tree] " + readableLoc(a[i+1:])
+	}
 	if len(parts) >= 3 {
 		steps := []string{}
 		for _, s := range strings.Split(parts[1], ".") {
@@ -997,7 +1132,7 @@ func runCases(cases []rescorr.Case, f *lib.Flags) []worked {
 }
 
 type tally struct {
-	sets, noTrees, outside, nonWF, queries, absQ, relQ, badQ, createQ, nodes, wfSets int64
+	sets, noTrees, outside, nonWF, queries, absQ, relQ, badQ, createQ, nodes, wfSets, crossQ int64
 	kinds                                                                            map[string]int64
 	triples                                                                          *lib.Distinct
 }
@@ -1066,8 +1201,16 @@ func judge(w worked, res *lib.Result, t *tally, verbose bool) (bad bool) {
 	for i := range q {
 		t.queries++
 		kf := strings.SplitN(kind[i], " ", 2)
-		t.kinds[kf[0]]++
-		switch kf[0] {
+		classOf := kf[0]
+		keptBase, keptPert := baseKind(kf[0])
+		if keptPert != "" {
+			t.kinds["kept:"+keptBase]++
+			t.kinds["kept-after-"+keptPert+"(answered by the kept tree)"]++
+			classOf = keptBase
+		} else {
+			t.kinds[kf[0]]++
+		}
+		switch classOf {
 		case "abs", "abs-bare", "dot":
 			t.absQ++
 		case "rel", "rel-high":
@@ -1095,8 +1238,12 @@ func judge(w worked, res *lib.Result, t *tally, verbose bool) (bad bool) {
 				known = kf[1]
 			}
 			reportedSpec++
-			report(lib.Disagreement{Kind: "spec", Go: readableLoc(a[i]), Model: readableLoc(mans[i]), SpecVerdict: "violates", Known: known,
-				What: fmt.Sprintf("%s: %s returned %s, the path names %s", kf[0], readableQuery(q[i]), readableLoc(goLoc), readableLoc(want[i]))})
+			what := fmt.Sprintf("%s: %s returned %s, the path names %s", kf[0], readableQuery(q[i]), readableLoc(goLoc), readableLoc(want[i]))
+			if keptPert != "" {
+				what = fmt.Sprintf("a lookup on a processed tree must return the very node of THAT tree (own-module or relative path: answered by the tree the start node lives in, not by the conversion cache): after %s on the Modules value, %s from the tree kept from Process returned %s, the path names %s [%s]",
+					keptPert, readableQuery(q[i]), readableLoc(goLoc), readableLoc(want[i]), keptBase)
+			}
+			report(lib.Disagreement{Kind: "spec", Go: readableLoc(a[i]), Model: readableLoc(mans[i]), SpecVerdict: "violates", Known: known, What: what})
 		}
 		if a[i] != mans[i] && reportedCorr < 4 {
 			v := "holds"
@@ -1106,6 +1253,45 @@ func judge(w worked, res *lib.Result, t *tally, verbose bool) (bad bool) {
 			reportedCorr++
 			report(lib.Disagreement{Kind: "correspondence", Go: readableLoc(a[i]), Model: readableLoc(mans[i]), SpecVerdict: v,
 				What: fmt.Sprintf("%s: model and Go differ on %s (lookup %d of the set)", kf[0], readableQuery(q[i]), i)})
+		}
+	}
+	// lookups from kept trees that cross into another module's tree (Go-side oracle only: kept.go)
+	for _, p := range w.g.Extra["kept"] {
+		t.kinds["kept-perturbations-applied"]++
+		_ = p
+	}
+	t.kinds["kept-phase-stopped(later run reported errors)"] += int64(len(w.g.Extra["kept_stopped"]))
+	if len(w.g.Extra["kept"]) > 0 {
+		t.kinds["sets-with-kept-tree-phase"]++
+	}
+	kq, ka, kwant, kalt, kkind := w.g.Extra["kq"], w.g.Extra["ka"], w.g.Extra["kwant"], w.g.Extra["kalt"], w.g.Extra["kkind"]
+	reportedCross := 0
+	for i := range kq {
+		if i >= len(ka) || i >= len(kwant) || i >= len(kalt) || i >= len(kkind) {
+			break
+		}
+		t.crossQ++
+		base, pert := baseKind("kept:" + kkind[i])
+		t.kinds["kept-crossing:"+base]++
+		t.kinds["kept-after-"+pert+"(crossing, answered by the current tree)"]++
+		goLoc := stripCounts(ka[i])
+		if goLoc == "none" && kwant[i] == "none" {
+			t.kinds["kept-crossing-absent-in-current-tree"]++
+		}
+		okLoc := goLoc == kwant[i] || goLoc == kalt[i]
+		okFrame := strings.HasSuffix(ka[i], ":0:0")
+		if okLoc && okFrame {
+			continue
+		}
+		t.kinds["VIOLATING-kept-crossing"]++
+		if reportedCross < 4 {
+			reportedCross++
+			what := fmt.Sprintf("a lookup that crosses from a kept processed tree into another module must return the node the path names in that module's current tree (ToEntry at the time of the call; nothing when that tree lacks it): after %s on the Modules value, %s returned %s, the current tree has %s [%s]",
+				pert, readableQuery(kq[i]), readableLoc(goLoc), readableLoc(kwant[i]), base)
+			if okLoc {
+				what = fmt.Sprintf("a lookup changes no tree: after %s on the Modules value, %s changed the kept trees (%s)", pert, readableQuery(kq[i]), ka[i])
+			}
+			report(lib.Disagreement{Kind: "spec", Go: readableLoc(ka[i]), Model: "(not asked: the model has one forest)", SpecVerdict: "violates", What: what})
 		}
 	}
 	// the specification's absPath of every node against the Go-side reading (Parent chain, Name)
@@ -1230,7 +1416,8 @@ func main() {
 			}
 			names, texts := set.Files()
 			cases = append(cases, rescorr.Case{Names: names, Texts: texts, IgnoreNotSupported: i%7 == 3,
-				Extra: map[string]string{"seed": strconv.FormatInt(f.Seed*7919+int64(i), 10), "max_pairs": strconv.Itoa(maxPairs), "label": "gen" + strconv.Itoa(i)}})
+				Extra: map[string]string{"seed": strconv.FormatInt(f.Seed*7919+int64(i), 10), "max_pairs": strconv.Itoa(maxPairs), "label": "gen" + strconv.Itoa(i),
+					"kept": b01(keptShare(i))}})
 		}
 		every := 0
 		if lo == 0 {
@@ -1255,6 +1442,7 @@ func main() {
 	res.Distribution["lookups_relative"] = t.relQ
 	res.Distribution["lookups_corrupted"] = t.badQ
 	res.Distribution["lookups_creating"] = t.createQ
+	res.Distribution["lookups_crossing_from_kept_trees(go-side oracle only)"] = t.crossQ
 	for k, v := range t.kinds {
 		res.Distribution["kind_"+k] = v
 	}
